@@ -32,6 +32,46 @@ def sat_add(a, b):
 SIZING_LITERALS = [p_ + d_ for p_ in ('left', 'right', 'big', 'Big', 'bigg', 'Bigg') for d_ in '()[]']
 
 
+def table_scan_helper(repo, module, call):
+    """`helper(ch)` where helper returns  next((k for k, vals in CATEGORY_CODES.items() if <p> in vals), <CC member>):
+    the first-match table scan with a constant fallback -> (helper FuncDef, fallback member) or None"""
+    if not (isinstance(call, ast.Call) and isinstance(call.func, ast.Name) and len(call.args) == 1 and not call.keywords):
+        return None
+    r = repo.resolve(module, call.func.id)
+    if not r or r[0] != 'func':
+        return None
+    h = r[1]
+    body = strip_doc(h.node.body)
+    params = h.params()
+    if len(body) != 1 or not isinstance(body[0], ast.Return) or len(params) != 1:
+        return None
+    v = body[0].value
+    if not (isinstance(v, ast.Call) and isinstance(v.func, ast.Name) and v.func.id == 'next' and len(v.args) == 2
+            and isinstance(v.args[0], ast.GeneratorExp) and len(v.args[0].generators) == 1):
+        return None
+    g = v.args[0].generators[0]
+    it = g.iter
+    ok_iter = isinstance(it, ast.Call) and isinstance(it.func, ast.Attribute) and it.func.attr == 'items' \
+        and isinstance(it.func.value, ast.Name) and it.func.value.id == 'CATEGORY_CODES' and not it.args
+    ok_tgt = isinstance(g.target, ast.Tuple) and len(g.target.elts) == 2 and all(isinstance(e, ast.Name) for e in g.target.elts)
+    if not (ok_iter and ok_tgt):
+        return None
+    k, vals = g.target.elts[0].id, g.target.elts[1].id
+    ok_elt = isinstance(v.args[0].elt, ast.Name) and v.args[0].elt.id == k
+    ok_if = len(g.ifs) == 1 and isinstance(g.ifs[0], ast.Compare) and len(g.ifs[0].ops) == 1 and isinstance(g.ifs[0].ops[0], ast.In) \
+        and isinstance(g.ifs[0].left, ast.Name) and g.ifs[0].left.id == params[0] \
+        and isinstance(g.ifs[0].comparators[0], ast.Name) and g.ifs[0].comparators[0].id == vals
+    if not (ok_elt and ok_if):
+        return None
+    try:
+        d = Folder(repo, h.module).ev(v.args[1])
+    except Unfoldable:
+        return None
+    if not isinstance(d, FEnumMember):
+        return None
+    return h, d
+
+
 class Alphabet:
     """Abstract characters: the CC members categorize() can assign, some of them split on
     single characters that rule guards compare against (e.g. '*')."""
@@ -95,7 +135,9 @@ class Alphabet:
                     v = Folder(self.repo, fn.module).ev(n.value.args[2])
                     cands.append(v)
                 except Unfoldable:
-                    pass
+                    h = table_scan_helper(self.repo, fn.module, n.value.args[2])
+                    if h is not None:
+                        cands.append(h[1])
         if len(cands) != 1 or not isinstance(cands[0], FEnumMember):
             # fall back to CC.Other; R19.a will examine categorize itself
             return self.other
@@ -721,6 +763,10 @@ class TokInterp(Interp):
                         outs.append((('const', len(vals[0][1])), s1))
                     elif vals[0][0] == 'pyseq':
                         outs.append((('const', len(vals[0][2])), s1))
+                    elif vals[0][0] == 'tok' and not vals[0][1].invented:
+                        # the length of a token's text = the extent of the input it was taken from
+                        tk = vals[0][1]
+                        outs.append((('const', tk.blen) if tk.blen is not None else ('toklen', tk), s1))
                     else:
                         self.unsupported('len of %s' % vals[0][0], n)
                 return outs
@@ -810,7 +856,49 @@ class TokInterp(Interp):
                 self.unsupported('cursor method %s' % meth, n)
         return outs
 
+    def next_of_generator(self, n, st):
+        """next((<elt> for <t> in <table> if <cond>), <default>)  ==  first element of the iteration whose condition holds,
+        else the default: evaluated as the for loop it abbreviates"""
+        g = n.args[0]
+        if len(g.generators) != 1 or g.generators[0].is_async or len(n.args) > 2 or n.keywords:
+            self.unsupported('generator expression %s' % norm(g)[:60], n)
+        gen = g.generators[0]
+        res = '__next_result_%d' % id(n)
+        test = gen.ifs[0] if len(gen.ifs) == 1 else (ast.BoolOp(ast.And(), list(gen.ifs)) if gen.ifs else ast.Constant(True))
+        hit = [ast.Assign([ast.Name(res, ast.Store())], g.elt), ast.Break()]
+        loop = ast.For(gen.target, gen.iter, [ast.If(test, hit, [])], [])
+        for x in ast.walk(loop):
+            if not hasattr(x, 'lineno'):
+                x.lineno, x.col_offset = n.lineno, n.col_offset
+        outs = []
+        for dv, s0 in (self.ev(n.args[1], st) if len(n.args) > 1 else [(None, st)]):
+            if isinstance(dv, Raised):
+                outs.append((dv, s0))
+                continue
+            s1 = s0.copy()
+            s1.top.vars[res] = ('nohit',)
+            for out, s2 in self.on_for(loop, s1):
+                if out != NEXT:
+                    if isinstance(out, tuple) and out and out[0] == 'raise':
+                        outs.append((out[2], s2))
+                        continue
+                    self.unsupported('generator expression leaves the loop with %s' % (out,), n)
+                s3 = s2.copy()
+                v = s3.top.vars.pop(res, ('nohit',))
+                tname = gen.target.id if isinstance(gen.target, ast.Name) else None
+                if v == ('nohit',):
+                    if dv is None:
+                        self.note('stopiteration', n, 'next() of an exhausted generator expression without default', s3)
+                        outs.append((Raised('StopIteration', n), s3))
+                    else:
+                        outs.append((dv, s3))
+                else:
+                    outs.append((v, s3))
+        return outs
+
     def call_next(self, n, st):
+        if n.args and isinstance(n.args[0], ast.GeneratorExp):
+            return self.next_of_generator(n, st)
         outs = []
         for vals, s1 in self.evs(n.args, st):
             if isinstance(vals, Raised):
@@ -867,6 +955,12 @@ class TokInterp(Interp):
                 target = b[1] - extra
             else:
                 self.unsupported('rollback to an untracked position', node)
+        elif amount[0] == 'toklen':
+            # backward(len(<token>)): back to the start of that token, provided it ends at the cursor
+            tk = amount[1]
+            if tk.lag != 0 or tk.start is None or tk.start == M:
+                self.unsupported('rollback by the length of a token that does not end at the cursor', node)
+            target = tk.start
         elif amount[0] == 'const' and isinstance(amount[1], int):
             if st.cur == M:
                 self.unsupported('constant rollback from an untracked cursor offset', node)
